@@ -39,6 +39,14 @@ def sort_keys(ctx: core.Ctx, mods):
             if isinstance(c, ast.Call) and isinstance(c.func, ast.Name) and c.func.id == "sorted":
                 n += 1
                 key = next((k.value for k in c.keywords if k.arg == "key"), None)
+                if isinstance(key, ast.Name):
+                    # a local name bound once to a lambda / attrgetter in the enclosing function
+                    for f in ast.walk(tree):
+                        if isinstance(f, ast.FunctionDef) and c in list(ast.walk(f)):
+                            defs = [a.value for a in ast.walk(f) if isinstance(a, ast.Assign) and len(a.targets) == 1
+                                    and isinstance(a.targets[0], ast.Name) and a.targets[0].id == key.id]
+                            if len(defs) == 1:
+                                key = defs[0]
                 ok, why = True, "natural order"
                 if key is not None:
                     txt = ast.unparse(key)
